@@ -395,6 +395,23 @@ fn c12_syn_queue_specific_listener() {
 }
 }
 
+// @verif id=C12 tier=thorough role=syn_queue timeout=900 desc=listener=127.0.0.1:80,syn-to-port-81
+crate::verif_proof! { unwind = 6;
+fn c12_syn_to_unbound_port_is_refused_localhost_listener() {
+    let (q, _) = syn_queue(IpAddr::V4(Ipv4Addr::LOCALHOST), 81);
+    assert!(!q);
+    kani::cover!(!q, "refused");
+}
+}
+// @verif id=C12 tier=thorough role=syn_queue timeout=900 desc=listener=other-host-ip:80(never-matches-this-host's-addresses-except-itself)
+crate::verif_proof! { unwind = 6;
+fn c12_syn_queue_listener_on_third_address() {
+    let (q, _) = syn_queue(OTHER_IP, 80);
+    kani::cover!(q, "its own address accepted");
+    kani::cover!(!q, "other destinations refused");
+}
+}
+
 // @verif id=C12 tier=quick role=accept_order timeout=900
 crate::verif_proof! { unwind = 6;
 fn c12_accept_is_fifo_and_unbind_discards_the_queue() {
@@ -597,6 +614,31 @@ fn c15_ephemeral_port_avoids_live_stream_port() {
 }
 }
 
+// @verif id=C15 tier=thorough role=ephemeral_ports timeout=900 desc=udp@50000,listener@50002,stream@50001
+crate::verif_proof! { unwind = 8;
+fn c15_ephemeral_port_one_of_each_kind_in_a_row() {
+    let (cur, p) = ephemeral(0, 2, 1);
+    assert!(p == 50003);
+    kani::cover!(cur == 3, "cursor already on the only free port");
+}
+}
+// @verif id=C15 tier=thorough role=ephemeral_ports timeout=900 desc=nothing-bound
+crate::verif_proof! { unwind = 8;
+fn c15_ephemeral_port_on_an_idle_host() {
+    let (cur, p) = ephemeral(4, 4, 4);
+    assert!(p >= 50000 && p <= 50003);
+    kani::cover!(cur == 3, "cursor at the end of the range");
+}
+}
+// @verif id=C15 tier=thorough role=ephemeral_ports timeout=900 desc=udp@50003,listener@50000
+crate::verif_proof! { unwind = 8;
+fn c15_ephemeral_port_both_ends_of_the_range_taken() {
+    let (cur, p) = ephemeral(3, 0, 4);
+    assert!(p == 50001 || p == 50002);
+    kani::cover!(cur == 3 && p != 50003 && p != 50000, "wrapped past both taken ends");
+}
+}
+
 // C09: the receive filter of a bound UDP socket (`Udp::receive_from_network`), through the real
 // `Udp::bind` / `Udp::connect`. The bound PORT and the destination PORT are concrete per instance
 // (table keys); the bind ADDRESS shape is concrete per instance; destination address, source
@@ -714,5 +756,24 @@ fn c09_udp_specific_bind_connected_second_datagram() {
     assert!(e == (a && p));
     kani::cover!(e, "second datagram queued behind the first");
     kani::cover!(a && !p, "right address, wrong peer: filtered");
+}
+}
+
+// @verif id=C09 tier=thorough role=udp_receive_filter timeout=900 desc=bind=127.0.0.1:9000,connected
+crate::verif_proof! { unwind = 6;
+fn c09_udp_localhost_bind_connected() {
+    let (a, p, e) = udp_filter::<2>(IpAddr::V4(Ipv4Addr::LOCALHOST), 9000, true, 0);
+    assert!(e == (a && p));
+    kani::cover!(e, "loopback datagram from the connected peer");
+    kani::cover!(a && !p, "loopback datagram from someone else: filtered");
+}
+}
+// @verif id=C09 tier=thorough role=udp_receive_filter timeout=900 desc=bind=host-ip:9000,unconnected,one-queued(cap=2)
+crate::verif_proof! { unwind = 6;
+fn c09_udp_specific_bind_second_datagram_keeps_order() {
+    let (a, _p, e) = udp_filter::<2>(HOST_IP, 9000, false, 1);
+    assert!(e == a);
+    kani::cover!(e, "queued behind the first");
+    kani::cover!(!a, "another destination address: dropped");
 }
 }
